@@ -136,8 +136,10 @@ class ValueOrListConverter(UnionConverter):
     def into_data(self, val: t.Any) -> DataType:
         if not isinstance(val, ValueOrList):
             return into_data(val)
+        # an unparameterized ValueOrList has item type Any: serialize items by their runtime type instead
+        ty = None if self.ty in (t.Any, type(t.Any)) else self.ty
         return t.cast(ValueOrList[t.Any], val).map(
-            lambda v: into_data(v, self.ty)
+            lambda v: into_data(v, ty)
         )._inner
 
 
